@@ -545,7 +545,7 @@ func runC05(c *Ctx) {
 	}
 	product := c05product()
 	c.AddCount("product_calls_per_configuration", int64(len(product)))
-	nRand := c.pick(120000, 2500000)
+	nRand := c.pick(250000, 2500000)
 	for _, mask := range masks {
 		cfg, name := setRegistry(c, mask)
 		c.ParallelFor(int64(len(product)), func(w *Worker, i int64) { c05check(w, cfg, name, product[i], i) })
